@@ -44,6 +44,62 @@ theorem stripBy_pad (p : Char → Bool) (pre core post : Str)
       intro c hc; exact hpost c (by simpa using hc))]
     simp [List.dropWhile, hpz]
 
+theorem dropWhile_head_false (p : Char → Bool) (l : Str) (x : Char) (xs : Str)
+    (h : l.dropWhile p = x :: xs) : p x = false := by
+  induction l with
+  | nil => simp at h
+  | cons a r ih =>
+    by_cases ha : p a = true
+    · simp only [List.dropWhile_cons, ha, if_true] at h
+      exact ih h
+    · have ha' : p a = false := by simpa using ha
+      simp only [List.dropWhile_cons, ha', Bool.false_eq_true, if_false] at h
+      injection h with h1 _
+      rw [← h1]; exact ha'
+
+/-- what `strip` returns has no strippable character at either end -/
+theorem stripBy_isTight (p : Char → Bool) (s : Str) : Tight p (stripBy p s) := by
+  unfold stripBy
+  generalize ha : s.dropWhile p = a
+  cases hb : a.reverse.dropWhile p with
+  | nil => left; simp
+  | cons z r =>
+    right
+    have hz : p z = false := dropWhile_head_false p _ z r hb
+    have hsplit := List.takeWhile_append_dropWhile (p := p) (l := a.reverse)
+    rw [hb] at hsplit
+    -- a = (z :: r).reverse ++ (takeWhile …).reverse
+    have ha' : a = (z :: r).reverse ++ (a.reverse.takeWhile p).reverse := by
+      have := congrArg List.reverse hsplit
+      simpa using this.symm
+    constructor
+    · -- the head of the result is the head of `a`, which `dropWhile` left unstrippable
+      cases hr : (z :: r).reverse with
+      | nil => simp at hr
+      | cons x xs =>
+        refine ⟨x, xs, rfl, ?_⟩
+        rw [hr] at ha'
+        cases a with
+        | nil => simp at ha'
+        | cons y ys =>
+          have hy : p y = false := dropWhile_head_false p s y ys ha
+          simp only [List.cons_append] at ha'
+          injection ha' with h1 _
+          rw [← h1]; exact hy
+    · exact ⟨r.reverse, z, by simp, hz⟩
+
+theorem stripBy_idem (p : Char → Bool) (s : Str) : stripBy p (stripBy p s) = stripBy p s := by
+  unfold stripBy at *
+  exact stripBy_tight' p _ (stripBy_isTight p s)
+where
+  stripBy_tight' (p : Char → Bool) (core : Str) (hc : Tight p core) : stripBy p core = core := by
+    rcases hc with rfl | ⟨⟨a, r, rfl, ha⟩, ⟨r', z, hz, hpz⟩⟩
+    · rfl
+    · unfold stripBy
+      have h1 : ((a :: r)).dropWhile p = (a :: r) := by simp [ha]
+      rw [h1, hz]
+      simp [hpz]
+
 theorem stripBy_tight (p : Char → Bool) (core : Str) (hc : Tight p core) : stripBy p core = core := by
   have := stripBy_pad p [] core [] (by simp) (by simp) hc
   simpa using this
